@@ -248,7 +248,18 @@ func (g *G) Scalar(k ref.Kind) *ref.Item {
 const hostileASCII = "\"\\ /\t\n\r\x00\x7f'<>.[]"
 
 // ASCII draws n characters 0..127, hostile ones over-represented.
+var slashStrings = []string{"//", "a//b", "http://host/path", "x//", "// not a comment", "/ /", "///", "a/b//c//"}
+
 func (g *G) ASCII(n int) []byte {
+	if n >= 2 && !g.P.PrintOnly && g.R.Chance(1, 25) {
+		// strings holding the comment delimiter
+		s := slashStrings[g.R.Intn(len(slashStrings))]
+		b := make([]byte, n)
+		for i := range b {
+			b[i] = s[i%len(s)]
+		}
+		return b
+	}
 	b := make([]byte, n)
 	mode := g.R.Intn(6)
 	for i := range b {
